@@ -164,7 +164,7 @@ impl Monitor for C15 {
             judge(&v, rec);
         } else {
             let x = v1_case(stream, idx, seed);
-            judge(&x, rec);
+            spec::sib::run_v1(&x, idx, 4, |x| judge(x, rec));
         }
     }
     fn floor(&self, tier: Tier) -> Vec<&'static str> {
